@@ -528,7 +528,11 @@ def _pgn_bits(prog, v, r, i):
     """bits of <ParameterGroupNumber(...)>.value with the attribute stores made on the object before effect i applied"""
     from sa.objeval import construct
     if not (v[0] == "attr" and v[1][0] == "call" and v[1][1] == ("clsref", "ParameterGroupNumber")):
-        return None
+        # a plain expression over the arguments (possibly mentioning value objects that are not modified afterwards)
+        try:
+            return BitEval(param_leaf({"data_page": 1, "pdu_format": 8, "pdu_specific": 8})).ev(resolve_objects(prog, v))
+        except AnalysisError:
+            return None
     objsym = v[1]
     o = construct(prog, "ParameterGroupNumber", objsym[2], objsym[3])
     for j, e in r.effects():
